@@ -39,6 +39,12 @@ CHECKS = {
              "Generated item trees and per-frame elaborate results (core space and order space) plus the fixpoint-guard family, executed "
              "on 3.9-3.12; frames and leaf must equal a reference model written from the documentation (scopes, no depth counters)." + HELD,
              "Trusted: the reference model's reading of the documented rules; cases the documentation leaves undefined are skipped and counted."),
+    "C04": E("exploration", "5/C04",
+             "property-based testing: generated call plans (plain / generator / coroutine / greenlet splits); exhaustive (outer, inner, limit) cross product per plan against a shadow frame list",
+             "For each generated plan the whole cross product of outer x inner x limit plus extract_since / extract_until (integer "
+             "and frame limits) is compared with slices of the shadow list recorded by the plan's own frames; greenlet plans on "
+             "3.12, others on 3.9-3.12." + HELD,
+             "Trusted: the shadow list; exhaustive per plan, sampled over plans."),
     "C05": E("fault_enumeration", "5/C05",
              "fault injection: exhaustive single faults (site x k-th dynamic invocation) and enumerated/sampled pairs over Hypothesis-generated extraction scenarios",
              "For each generated scenario (coroutine chains with nested generator-based managers and exit stacks, custom stack "
@@ -65,6 +71,19 @@ CHECKS = {
              "and compared with the model 'innermost enclosing extract on this thread'; threaded leg drives 2-4 such trees under "
              "generated interleavings at hook granularity." + HELD,
              "Trusted: the observation method (stub-or-not, contexts-or-not); interleavings only at hook-entry granularity."),
+    "C14": E("exploration", "5/C14",
+             "property-based testing: generated Trio task-tree specs rendered to source + thread ping-pong chains; differential oracle = Trio's own task/nursery bookkeeping",
+             "Generated task trees (nurseries opened directly / in helpers / in async generator managers; blocking in body or in "
+             "__aexit__ after bodies ending in jump-shaped statements) are extracted from the root task with recursion and compared "
+             "with task.child_nurseries / nursery.child_tasks by identity; blocking lines checked; to_thread/from_thread chains of "
+             "depth 0-4 must show exactly the generated call chain. CPython 3.12 only." + HELD,
+             "Trusted: Trio's task tree attributes; wait_all_tasks_blocked for quiescence."),
+    "C15": E("exploration", "5/C15",
+             "property-based testing: generated greenlet parent chains inspected from every vantage point + lifecycle states + greenback alternation depths; shadow call-log oracle",
+             "Every greenlet of generated parent chains is extracted from main, itself, its child, a deeper descendant and an "
+             "unrelated greenlet and compared with the shadow call log; unstarted/dead/foreign-thread states; greenback bridges "
+             "depth 0-5 from outside and inside the task. CPython 3.12 only." + HELD,
+             "Trusted: the shadow call logs."),
     "C16": E("exploration", "5/C16",
              "property-based testing: generated chains (suspended and extracted from inside while running) and item trees; oracle = builder's ownership record",
              "For every frame of generated chains (suspended and running) and of custom item trees: origin weak-referenceable and "
